@@ -773,7 +773,7 @@ func Gen(t *rapid.T, tier string) any {
 var Prop = &kernel.Property{
 	ID:    "C11",
 	Level: "exploration",
-	Rule: "the route set is discovered at run time on the real mux of a node assembled by the real registration code (net/http's own pattern index with the location of each registering call, cross-checked against a go/ast scan of internal/ and mux.Handler); quick: every route x a seeded list of request shapes (method, content type, body, cookie state none/unknown/malformed/expired/logged-out/valid, basic credentials none/wrong/right, 9 path spellings), thorough: the complete product on every route; " +
+	Rule: "the route set is discovered at run time on the real mux of a node assembled by the real registration code (net/http's own pattern index with the location of each registering call, cross-checked against a go/ast scan of internal/ and mux.Handler); quick: every route x a seeded list of request shapes (method, content type, body, cookie state none/unknown/malformed/expired/logged-out/valid, basic credentials none/wrong/right, 9 path spellings), thorough: the complete product on every route; the node is a restarted configured process, a process right after the installation, or (quick, a quarter of the cases) a process started on first run without users in which the install wizard's configure step creates the administrator (Auth.addUser, first-run flags, configuration write) before the probing, without a restart in between; " +
 		"a case is non-trivial when it probed >=1 protected route without credentials, >=1 with valid credentials and compared the state digest; distinct = distinct scenario digests",
 	Gen: Gen,
 	New: func() any { return &Scenario{} },
@@ -782,13 +782,15 @@ var Prop = &kernel.Property{
 		return c.Probes["unauth_forbidden"] > 0 && (c.Probes["auth_wrong_method_405"]+c.Probes["auth_non_json_415"]+c.Probes["auth_positive_control_200"]) > 0 && c.Probes["state_digest_compared"] > 0
 	},
 	Real: []string{"internal/home: newWebAPI, registerControlHandlers, registerInstallHandlers, RegisterAuthHandlers, httpRegister and its wrapper chain (postInstall, optionalAuth, gzip, ensure), preInstall, limitRequestBody, Auth + bbolt sessions.db, authRateLimiter, tlsManager, clientsContainer, configuration.write", "registration code of dhcpd.Create, dnsforward.Server.Prepare, filtering.RegisterFilteringHandlers, stats initWeb, querylog initWeb, clients and TLS handlers, all through home.httpRegister on the real http.ServeMux", "net/http request parsing and ServeMux path canonicalisation"},
-	Stub: []string{"HTTP/HTTPS listeners (requests go to the handler the listeners serve, in-process)", "the DNS, DHCP, filtering-update, statistics and query-log background loops are not started (objects are created and registered only)", "static front-end files (in-memory fs.FS)", "wall clock (synctest fake clock)"},
+	Stub: []string{"HTTP/HTTPS listeners (requests go to the handler the listeners serve, in-process)", "the DNS, DHCP, filtering-update, statistics and query-log background loops are not started (objects are created and registered only)", "static front-end files (in-memory fs.FS)", "wall clock (synctest fake clock)", "the request decoding, port checks and startMods of handleInstallConfigure (the install step performs its other effects through a hook: leaving first-run mode, Auth.addUser, configuration write; the control routes and module objects are on the mux before the step instead of being registered by it)"},
 	Assumptions: []string{
 		"handlers are never allowed to run with valid credentials except six read-only GET handlers (positive control); for authenticated requests only what the statement says is rejected before the handler is sent (wrong method -> 405, mutating method with a non-JSON content type -> 415)",
 		"a request with a dead cookie next to correct basic credentials may be served or refused",
 		"a redirect (3xx) issued by the public static file server itself for a non-canonical spelling under /assets/ (reachable only with CONNECT, which the mux dispatches on the raw path, e.g. CONNECT /assets/..) is accepted like the mux's own redirect for a non-canonical path: static assets are public, no protected handler runs and the state digest is unchanged; any other answer there, a protected handler running or a state change is still a violation",
 		"the login route is public for every method (a GET is answered 405 by its own method guard)",
 		"package internal/next (another binary with its own mux) is not part of the node",
+		"nothing is asserted about requests before the administrator exists (first-run mode)",
+		"in cases with the in-process installation the administrator's password hash has the real cost, so sweeps over all routes send basic credentials with another user name only; single-route cases use all credential states",
 		"a route is covered if it is on the real mux after the real registration code has run; the space of source programs is not enumerated",
 	},
 	FaultKinds: []string{"clean_restart", "process_crash", "clock_past_session_ttl", "install_in_process"},
